@@ -657,15 +657,24 @@ def run_property(prop_id, module, tier, seed, nshards, budget_s, only=None):
             procs.append(subprocess.Popen(cmd, stdout=subprocess.PIPE, stderr=subprocess.STDOUT))
         parts = []
         bad = []
+        hard_deadline = t0 + budget_s + 900.0
+        timed_out = []
         for k, (p, out) in enumerate(zip(procs, outs)):
-            stdout, _ = p.communicate()
+            try:
+                stdout, _ = p.communicate(timeout=max(5.0, hard_deadline - time.time()))
+            except subprocess.TimeoutExpired:
+                p.kill()
+                stdout, _ = p.communicate()
+                timed_out.append(k)
+                print(f"[{prop_id}] shard {k} exceeded the wall budget and was stopped (inconclusive, not a violation)")
+                continue
             if p.returncode != 0 or not os.path.exists(out):
                 bad.append((k, p.returncode, stdout.decode(errors="replace")[-3000:]))
                 continue
             with open(out) as f:
                 parts.append(json.load(f))
             os.unlink(out)
-        if bad:
+        if bad or not parts:
             for k, rc, txt in bad:
                 print(f"HARNESS-ERROR shard {k} rc={rc}\n{txt}", file=sys.stderr)
             return 2
